@@ -4,6 +4,7 @@ executor on the real AST, collect and discharge the verification conditions.
 """
 import ast
 import time
+import os
 import traceback
 import z3
 
@@ -273,7 +274,7 @@ def solve_vc(vc, timeout_ms):
     if has_q and vc.kind != 'cover':
         # portfolio, short budgets first: E-matching only / default configuration (MBQI) / cvc5 -- most obligations are decided by one of
         # them within a second, and which one varies; the full budget is spent only when all three short attempts were inconclusive
-        short = min(3000, timeout_ms)
+        short = min(int(os.environ.get('PYVC_SHORT_MS', '3000')), timeout_ms)
         for budget in ([short, timeout_ms] if timeout_ms > short else [timeout_ms]):
             s = z3.Solver()
             s.set('timeout', budget)
